@@ -8,6 +8,7 @@
 #include <array>
 #include <cstdlib>
 #include <iostream>
+#include <functional>
 #include <memory>
 #include <sstream>
 #include <stdexcept>
@@ -152,18 +153,41 @@ template<class T, int D> struct Holder : Base<T> {
 		}
 	}
 
+	// Every view operation has up to six overloads (const& / & / && in const_subarray and again in subarray).  The receiver
+	// kind is a deterministic function of the operation and the current shape, so that a program text always takes the
+	// same overloads (replays are exact) while a family of programs takes all of them.
+	int receiver_kind(Op const& op) const {
+		std::size_t h = std::hash<std::string>{}(op.name) % 1000U;
+		for(auto x : op.args) { h = h * 31U + static_cast<std::size_t>(x + 1000); }
+		for(auto const& p : op.pargs) { h = h * 31U + static_cast<std::size_t>(p.kind) + static_cast<std::size_t>(p.a + 100) * 7U + static_cast<std::size_t>(p.b + 100) * 13U; }
+		for(auto x : tup_to_vec(v.sizes())) { h = h * 31U + static_cast<std::size_t>(x); }
+		for(auto x : tup_to_vec(v.strides())) { h = h * 31U + static_cast<std::size_t>(x + 100000); }
+		return static_cast<int>(h % 6U);
+	}
+	template<class F> std::unique_ptr<Base<T>> with_receiver(int kind, F&& f) {
+		T* const b = const_cast<T*>(v.base());  // NOLINT
+		switch(kind) {
+			case 0: return f(v);                                                        // const_subarray, lvalue
+			case 1: return f(std::as_const(v));                                         // const_subarray, const lvalue
+			case 2: { V<T, D> t(v.layout(), b); return f(std::move(t)); }               // const_subarray, rvalue
+			case 3: { multi::subarray<T, D, T*> m(v.layout(), b); return f(m); }        // subarray, lvalue
+			case 4: { multi::subarray<T, D, T*> m(v.layout(), b); return f(std::move(m)); }   // subarray, rvalue
+			default: { multi::subarray<T, D, T*> m(v.layout(), b); return f(std::as_const(m)); }  // subarray, const lvalue
+		}
+	}
+
 	// call syntax with run-time chosen argument kinds: at most 3 leading arguments
-	template<int K, class Tup> std::unique_ptr<Base<T>> paren_(std::vector<parg> const& a, Tup tup) {
+	template<int K, class R, class Tup> static std::unique_ptr<Base<T>> paren_(R&& r, std::vector<parg> const& a, Tup tup) {
 		if(static_cast<int>(a.size()) == K) {
 			return std::apply([&](auto... as) -> std::unique_ptr<Base<T>> {
 				if constexpr(sizeof...(as) == 0) {
-					return wrap<T>(v());
+					return wrap<T>(std::forward<R>(r)());
 				} else {
-					using R = std::decay_t<decltype(v(as...))>;
-					if constexpr(std::is_same_v<R, T>) {
+					using Res = std::decay_t<decltype(std::forward<R>(r)(as...))>;
+					if constexpr(std::is_same_v<Res, T>) {
 						throw unsupported("paren to element");
 					} else {
-						return wrap<T>(v(as...));
+						return wrap<T>(std::forward<R>(r)(as...));
 					}
 				}
 			}, tup);
@@ -171,9 +195,9 @@ template<class T, int D> struct Holder : Base<T> {
 		if constexpr(K < 3 && K < D) {
 			auto const& p = a[K];
 			switch(p.kind) {
-				case 'i': return paren_<K + 1>(a, std::tuple_cat(tup, std::make_tuple(static_cast<multi::index>(p.a))));
-				case 'r': return paren_<K + 1>(a, std::tuple_cat(tup, std::make_tuple(multi::irange{p.a, p.b})));
-				default : return paren_<K + 1>(a, std::tuple_cat(tup, std::make_tuple(multi::_)));
+				case 'i': return paren_<K + 1>(std::forward<R>(r), a, std::tuple_cat(tup, std::make_tuple(static_cast<multi::index>(p.a))));
+				case 'r': return paren_<K + 1>(std::forward<R>(r), a, std::tuple_cat(tup, std::make_tuple(multi::irange{p.a, p.b})));
+				default : return paren_<K + 1>(std::forward<R>(r), a, std::tuple_cat(tup, std::make_tuple(multi::_)));
 			}
 		} else {
 			throw unsupported("too many paren arguments");
@@ -181,49 +205,49 @@ template<class T, int D> struct Holder : Base<T> {
 	}
 
 	std::unique_ptr<Base<T>> apply(Op const& op) override {
+		return with_receiver(receiver_kind(op), [&](auto&& r) -> std::unique_ptr<Base<T>> { return apply_on(std::forward<decltype(r)>(r), op); });
+	}
+
+	template<class R> static std::unique_ptr<Base<T>> apply_on(R&& r, Op const& op) {
 		auto const& n = op.name;
 		auto const& a = op.args;
 		if(n == "index") {
-			if constexpr(D >= 2) { return wrap<T>(v[a[0]]); } else { throw unsupported("index on rank 1"); }
+			if constexpr(D >= 2) { return wrap<T>(std::forward<R>(r)[a[0]]); } else { throw unsupported("index on rank 1"); }
 		}
-		if(n == "nop") { return wrap<T>(v()); }
-		if(n == "sliced") { return wrap<T>(v.sliced(a[0], a[1])); }
-		if(n == "sliceds") { return wrap<T>(v.sliced(a[0], a[1], a[2])); }
-		if(n == "strided") { return wrap<T>(v.strided(a[0])); }
-		if(n == "dropped") { return wrap<T>(v.dropped(a[0])); }
-		if(n == "taked") {
-			// at the pinned commit taked() does not compile for D > 1 (its only overload cannot convert
-			// its result to basic_const_array); exercised for D == 1 only
-			if constexpr(D == 1) { return wrap<T>(v.taked(a[0])); } else { throw unsupported("taked D>1"); }
-		}
-		if(n == "rotated") { return wrap<T>(v.rotated()); }
-		if(n == "unrotated") { return wrap<T>(v.unrotated()); }
+		if(n == "nop") { return wrap<T>(std::forward<R>(r)()); }
+		if(n == "sliced") { return wrap<T>(std::forward<R>(r).sliced(a[0], a[1])); }
+		if(n == "sliceds") { return wrap<T>(std::forward<R>(r).sliced(a[0], a[1], a[2])); }
+		if(n == "strided") { return wrap<T>(std::forward<R>(r).strided(a[0])); }
+		if(n == "dropped") { return wrap<T>(std::forward<R>(r).dropped(a[0])); }
+		if(n == "taked") { return wrap<T>(std::forward<R>(r).taked(a[0])); }
+		if(n == "rotated") { return wrap<T>(std::forward<R>(r).rotated()); }
+		if(n == "unrotated") { return wrap<T>(std::forward<R>(r).unrotated()); }
 		if(n == "transposed") {
-			if constexpr(D >= 2) { return wrap<T>(v.transposed()); } else { throw unsupported("transposed D=1"); }
+			if constexpr(D >= 2) { return wrap<T>(std::forward<R>(r).transposed()); } else { throw unsupported("transposed D=1"); }
 		}
 		if(n == "tilde") {
-			if constexpr(D >= 2) { return wrap<T>(~v); } else { throw unsupported("~ D=1"); }
+			if constexpr(D >= 2) { return wrap<T>(~std::forward<R>(r)); } else { throw unsupported("~ D=1"); }
 		}
-		if(n == "reversed") { return wrap<T>(v.reversed()); }
+		if(n == "reversed") { return wrap<T>(std::forward<R>(r).reversed()); }
 		if(n == "diagonal") {
-			if constexpr(D >= 2) { return wrap<T>(v.diagonal()); } else { throw unsupported("diagonal D=1"); }
+			if constexpr(D >= 2) { return wrap<T>(std::forward<R>(r).diagonal()); } else { throw unsupported("diagonal D=1"); }
 		}
-		if(n == "partitioned") { return wrap<T>(v.partitioned(a[0])); }
-		if(n == "chunked") { return wrap<T>(v.chunked(a[0])); }
-		if(n == "halved") { return wrap<T>(v.halved()); }
+		if(n == "partitioned") { return wrap<T>(std::forward<R>(r).partitioned(a[0])); }
+		if(n == "chunked") { return wrap<T>(std::forward<R>(r).chunked(a[0])); }
+		if(n == "halved") { return wrap<T>(std::forward<R>(r).halved()); }
 		if(n == "flatted") {
-			if constexpr(D >= 2) { return wrap<T>(v.flatted()); } else { throw unsupported("flatted D=1"); }
+			if constexpr(D >= 2) { return wrap<T>(std::forward<R>(r).flatted()); } else { throw unsupported("flatted D=1"); }
 		}
-		if(n == "paren") { return paren_<0>(op.pargs, std::tuple<>{}); }
-		if(n == "reindexed") { return wrap<T>(v.reindexed(a[0])); }
-		if(n == "blocked") { return wrap<T>(v.blocked(a[0], a[1])); }
+		if(n == "paren") { return paren_<0>(std::forward<R>(r), op.pargs, std::tuple<>{}); }
+		if(n == "reindexed") { return wrap<T>(std::forward<R>(r).reindexed(a[0])); }
+		if(n == "blocked") { return wrap<T>(std::forward<R>(r).blocked(a[0], a[1])); }
 		if(n == "reindexedl") {
-			if constexpr(D >= 2) { if(a.size() == 2) { return wrap<T>(v.reindexed(a[0], a[1])); } }
-			if constexpr(D >= 3) { if(a.size() == 3) { return wrap<T>(v.reindexed(a[0], a[1], a[2])); } }
-			if constexpr(D >= 4) { if(a.size() == 4) { return wrap<T>(v.reindexed(a[0], a[1], a[2], a[3])); } }
+			if constexpr(D >= 2) { if(a.size() == 2) { return wrap<T>(std::forward<R>(r).reindexed(a[0], a[1])); } }
+			if constexpr(D >= 3) { if(a.size() == 3) { return wrap<T>(std::forward<R>(r).reindexed(a[0], a[1], a[2])); } }
+			if constexpr(D >= 4) { if(a.size() == 4) { return wrap<T>(std::forward<R>(r).reindexed(a[0], a[1], a[2], a[3])); } }
 			throw unsupported("reindexed arity");
 		}
-		if(n == "range") { return wrap<T>(v.range(multi::irange{a[0], a[1]})); }
+		if(n == "range") { return wrap<T>(std::forward<R>(r).range(multi::irange{a[0], a[1]})); }
 		throw unsupported("unknown op " + n);
 	}
 };
